@@ -256,7 +256,13 @@ fn parse_suppression_set(text: &str) -> Option<HashSet<String>> {
     return None;
   }
   let (_, rules) = after.split_once(':')?;
-  let set = rules.split(',').map(|r| r.trim().to_string()).collect();
+  // an id ends at the first white space, so that the closing delimiter of a block comment
+  // (`<!-- ast-grep-ignore: a, b -->`, `/* ast-grep-ignore: a */`) is not part of the last id
+  let set = rules
+    .split(',')
+    .filter_map(|r| r.split_whitespace().next())
+    .map(String::from)
+    .collect();
   Some(set)
 }
 
